@@ -49,6 +49,23 @@ theorem mem_keys_countGroups_iff_count (a : Assign) (nbrs : List (List Nat)) (is
   · rintro ⟨i, hi, h⟩; exact ⟨i, hi, h⟩
   · rintro ⟨i, hi, h⟩; exact ⟨i, hi, h⟩
 
+theorem mem_keys_countDescs (ds : List DescPat) (c : Counts) (t : String) (h : t ∈ Counts.keys (countDescs ds c)) :
+    t ∈ Counts.keys c ∨ ∃ d ∈ ds, d.name = t := by
+  induction ds generalizing c with
+  | nil => exact Or.inl (by simpa [countDescs] using h)
+  | cons d ds ih =>
+    unfold countDescs at h
+    simp only at h
+    split at h
+    · rcases ih c h with h' | ⟨d', hd', e⟩
+      · exact Or.inl h'
+      · exact Or.inr ⟨d', List.mem_cons_of_mem _ hd', e⟩
+    · rcases ih _ h with h' | ⟨d', hd', e⟩
+      · rcases (Counts.mem_keys_add c d.name t _).mp h' with e | h''
+        · exact Or.inr ⟨d, List.mem_cons_self, e.symm⟩
+        · exact Or.inl h''
+      · exact Or.inr ⟨d', List.mem_cons_of_mem _ hd', e⟩
+
 theorem Counts.mem_keys_set (c : Counts) (k x : String) (v : Rat) :
     x ∈ Counts.keys (c.set k v) ↔ x = k ∨ x ∈ Counts.keys c := by
   induction c with
